@@ -50,28 +50,47 @@ func (sm StringMatcher) Match(input string) bool {
 	switch {
 	case sm.exactMatch != nil:
 		if sm.ignoreCase {
-			input = strings.ToLower(input)
+			input = asciiToLower(input)
 		}
 		return input == *sm.exactMatch
 	case sm.prefixMatch != nil:
 		if sm.ignoreCase {
-			input = strings.ToLower(input)
+			input = asciiToLower(input)
 		}
 		return strings.HasPrefix(input, *sm.prefixMatch)
 	case sm.suffixMatch != nil:
 		if sm.ignoreCase {
-			input = strings.ToLower(input)
+			input = asciiToLower(input)
 		}
 		return strings.HasSuffix(input, *sm.suffixMatch)
 	case sm.containsMatch != nil:
 		if sm.ignoreCase {
-			input = strings.ToLower(input)
+			input = asciiToLower(input)
 		}
 		return strings.Contains(input, *sm.containsMatch)
 	case sm.regexMatch != nil:
 		return sm.regexMatch.MatchString(input)
 	}
 	return false
+}
+
+// asciiToLower lower-cases the ASCII letters of s and leaves every other byte
+// untouched. ignore_case is defined in terms of ASCII case only; Unicode case
+// mapping (strings.ToLower) would make non-ASCII runes such as U+212A KELVIN
+// SIGN compare equal to ASCII letters and would rewrite invalid UTF-8.
+func asciiToLower(s string) string {
+	for i := 0; i < len(s); i++ {
+		if c := s[i]; 'A' <= c && c <= 'Z' {
+			b := []byte(s)
+			for ; i < len(b); i++ {
+				if c := b[i]; 'A' <= c && c <= 'Z' {
+					b[i] = c + ('a' - 'A')
+				}
+			}
+			return string(b)
+		}
+	}
+	return s
 }
 
 // newStrPtr allocates a new string that holds the value of input and returns a
@@ -83,7 +102,7 @@ func newStrPtr(input *string, ignoreCase bool) *string {
 
 	s := new(string)
 	if ignoreCase {
-		*s = strings.ToLower(*input)
+		*s = asciiToLower(*input)
 	} else {
 		*s = *input
 	}
